@@ -338,7 +338,7 @@ pub fn run(tier: Tier, args: &[String]) -> i32 {
     let mut cases = 0u64;
     let mut nontrivial = 0u64;
     for codec in [Codec::Bin, Codec::Json] {
-        let ctx = Arc::new(FaultCtx::new(codec));
+        let ctx = Arc::new(FaultCtx::new(codec, &crate::app::main_menu()));
         let remaining = (limit - rep.elapsed()).max(1.0);
         // the JSON half gets what is left; the bincode half at most 55 % of the budget
         let share = if codec == Codec::Bin { remaining * 0.55 } else { remaining };
@@ -378,17 +378,59 @@ pub fn run(tier: Tier, args: &[String]) -> i32 {
             menu: Some(crate::app::main_menu()),
             },
         };
-        let st = explore::run(&cfg, &v, 4);
-        let acc = v.acc.into_inner().unwrap();
+        let mut st = explore::run(&cfg, &v, 4);
+        // the same sweep over the RENDER-FREE histories {TwoQuiet, ThreeQuiet, Single, Quiet}:
+        // the registry never holds a `Never` entry there (every render leaves one for good, K3,
+        // which inflates the registry's length and can mask what depends on it)
+        let ctx_free = Arc::new(FaultCtx::new(codec, &crate::app::render_free_menu()));
+        let free_cfg = |d: usize| Cfg {
+            kinds: lanes(codec),
+            depth: d,
+            max_out: usize::MAX,
+            deadline: Deadline::new((limit - rep.elapsed()).max(1.0)),
+            want_canon: false,
+            fault: Some(ctx_free.clone()),
+            min_frontier: 400,
+            record: false,
+            garbage: false,
+            menu: Some(crate::app::render_free_menu()),
+        };
+        let v_free = V {
+            rep: &rep,
+            codec,
+            ctx: ctx_free.clone(),
+            depth,
+            probe_all,
+            rechecked: Mutex::new(BTreeSet::new()),
+            acc: Mutex::new(Acc {
+                samples: Some(Samples::new(4)),
+                ..Default::default()
+            }),
+            cont_cfg: free_cfg(depth + 1),
+        };
+        let st_free = explore::run(&free_cfg(depth), &v_free, 4);
+        let render_free_nodes = st_free.nodes;
+        st.merge(st_free);
+        let acc_free = v_free.acc.into_inner().unwrap();
+        let mut acc = v.acc.into_inner().unwrap();
+        acc.fstats.merge(&acc_free.fstats);
+        acc.cases += acc_free.cases;
+        acc.continuation_nodes += acc_free.continuation_nodes;
+        acc.positions += acc_free.positions;
+        acc.batch_runs += acc_free.batch_runs;
+        acc.steps += acc_free.steps;
+        acc.probes += acc_free.probes;
         let complete = !st.cut_by_deadline && !deadline_all.expired();
         all_complete &= complete;
         per_codec.push(json!({
             "codec": codec.name(),
             "valid_histories_of_depth_up_to": depth,
+            "render_free_history_nodes {TwoQuiet, ThreeQuiet, Single, Quiet}": render_free_nodes,
             "positions (history-tree nodes)": acc.positions,
             "complete_histories": st.leaves,
             "event_family_undecodable": ctx.ev_bad.len(),
             "event_family_wellformed_mutants": ctx.ev_mut.len(),
+            "render_free_event_family (undecodable, wellformed)": (ctx_free.ev_bad.len(), ctx_free.ev_mut.len()),
             "event_batch_runs (complete history x position)": acc.batch_runs,
             "faulty_cases_on_fresh_objects": acc.cases,
             "faulty_inputs_offered": acc.fstats.inputs,
@@ -419,6 +461,7 @@ pub fn run(tier: Tier, args: &[String]) -> i32 {
         "history_depth_bound (D-1)": depth,
         "event_alphabet": crate::app::MENU_NAMES,
         "reduced_event_menu": false,
+        "menus": "the full sweep runs over the histories of the ten effectful menu events AND, separately, over the render-free histories of {TwoQuiet, ThreeQuiet, Single, Quiet} (no render, no notification anywhere: a registry without any Never entry)",
         "probe_after_every_faulty_answer": probe_all,
         "bincode_fault_alphabet": BIN_ALPHABET,
         "json_fault_alphabet": JSON_ALPHABET,
@@ -467,7 +510,8 @@ pub fn replay_file(path: &str) -> i32 {
     };
     println!("replaying on typed core + {} bridge: [{}]", codec.name(), show_steps(&steps));
     let mut sys = System::new(&lanes(codec));
-    sys.fault = Some(Arc::new(FaultCtx::new(codec)));
+    let all_events: Vec<usize> = (0..crate::app::MENU).collect();
+    sys.fault = Some(Arc::new(FaultCtx::new(codec, &all_events)));
     let mut bad = false;
     for (i, s) in steps.iter().enumerate() {
         if !sys.is_enabled(s) {
